@@ -25,34 +25,34 @@ func zoo() jx.Obj {
 	ref := func(n string) jx.Obj { return jx.Obj{"$ref": "#/definitions/" + n} }
 	return jx.Obj{"swagger": "2.0", "info": jx.Obj{"title": "zoo", "version": "1"}, "paths": jx.Obj{},
 		"definitions": jx.Obj{
-			"Str":        jx.Obj{"type": "string"},
-			"Date":       jx.Obj{"type": "string", "format": "date"},
-			"Enum":       jx.Obj{"type": "string", "enum": jx.Arr{"a", "b"}},
-			"Empty":      jx.Obj{},
-			"EmptyObj":   jx.Obj{"type": "object"},
-			"Obj":        jx.Obj{"type": "object", "properties": jx.Obj{"a": jx.Obj{"type": "string"}}},
-			"ObjX":       jx.Obj{"type": "object", "properties": jx.Obj{"a": jx.Obj{"type": "string"}}, "additionalProperties": jx.Obj{"type": "integer"}},
-			"Base":       jx.Obj{"type": "object", "discriminator": "kind", "properties": jx.Obj{"kind": jx.Obj{"type": "string"}}, "required": jx.Arr{"kind"}},
-			"All":        jx.Obj{"allOf": jx.Arr{ref("Obj"), jx.Obj{"type": "object", "properties": jx.Obj{"b": jx.Obj{"type": "integer"}}}}},
-			"MapS":       jx.Obj{"type": "object", "additionalProperties": jx.Obj{"type": "string"}},
-			"MapAny":     jx.Obj{"type": "object", "additionalProperties": true},
-			"MapO":       jx.Obj{"type": "object", "additionalProperties": ref("Obj")},
-			"ArrS":       jx.Obj{"type": "array", "items": jx.Obj{"type": "string"}},
-			"ArrO":       jx.Obj{"type": "array", "items": ref("Obj")},
-			"ArrNoItems": jx.Obj{"type": "array"},
-			"Tup":        jx.Obj{"type": "array", "items": jx.Arr{jx.Obj{"type": "string"}, ref("Obj")}},
-			"TupX":       jx.Obj{"type": "array", "items": jx.Arr{jx.Obj{"type": "string"}}, "additionalItems": jx.Obj{"type": "integer"}},
-			"Chain":      ref("Obj"),
-			"Chain2":     ref("Chain"),
-			"Node":       jx.Obj{"type": "object", "properties": jx.Obj{"next": ref("Node"), "list": ref("NodeList")}},
-			"NodeList":   jx.Obj{"type": "array", "items": ref("Node")},
-			"MutA":       jx.Obj{"type": "object", "properties": jx.Obj{"b": ref("MutB")}},
-			"MutB":       jx.Obj{"type": "object", "properties": jx.Obj{"a": ref("MutA")}},
-			"ArrSelf":    jx.Obj{"type": "array", "items": ref("ArrSelf")},
-			"MapSelf":    jx.Obj{"type": "object", "additionalProperties": ref("MapSelf")},
-			"ArrMapSelf": jx.Obj{"type": "array", "items": jx.Obj{"type": "object", "additionalProperties": ref("ArrMapSelf")}},
-			"MutArrA":    jx.Obj{"type": "array", "items": ref("MutArrB")},
-			"MutArrB":    jx.Obj{"type": "object", "additionalProperties": ref("MutArrA")},
+			"Str":          jx.Obj{"type": "string"},
+			"Date":         jx.Obj{"type": "string", "format": "date"},
+			"Enum":         jx.Obj{"type": "string", "enum": jx.Arr{"a", "b"}},
+			"Empty":        jx.Obj{},
+			"EmptyObj":     jx.Obj{"type": "object"},
+			"Obj":          jx.Obj{"type": "object", "properties": jx.Obj{"a": jx.Obj{"type": "string"}}},
+			"ObjX":         jx.Obj{"type": "object", "properties": jx.Obj{"a": jx.Obj{"type": "string"}}, "additionalProperties": jx.Obj{"type": "integer"}},
+			"Base":         jx.Obj{"type": "object", "discriminator": "kind", "properties": jx.Obj{"kind": jx.Obj{"type": "string"}}, "required": jx.Arr{"kind"}},
+			"All":          jx.Obj{"allOf": jx.Arr{ref("Obj"), jx.Obj{"type": "object", "properties": jx.Obj{"b": jx.Obj{"type": "integer"}}}}},
+			"MapS":         jx.Obj{"type": "object", "additionalProperties": jx.Obj{"type": "string"}},
+			"MapAny":       jx.Obj{"type": "object", "additionalProperties": true},
+			"MapO":         jx.Obj{"type": "object", "additionalProperties": ref("Obj")},
+			"ArrS":         jx.Obj{"type": "array", "items": jx.Obj{"type": "string"}},
+			"ArrO":         jx.Obj{"type": "array", "items": ref("Obj")},
+			"ArrNoItems":   jx.Obj{"type": "array"},
+			"Tup":          jx.Obj{"type": "array", "items": jx.Arr{jx.Obj{"type": "string"}, ref("Obj")}},
+			"TupX":         jx.Obj{"type": "array", "items": jx.Arr{jx.Obj{"type": "string"}}, "additionalItems": jx.Obj{"type": "integer"}},
+			"Chain":        ref("Obj"),
+			"Chain2":       ref("Chain"),
+			"Node":         jx.Obj{"type": "object", "properties": jx.Obj{"next": ref("Node"), "list": ref("NodeList")}},
+			"NodeList":     jx.Obj{"type": "array", "items": ref("Node")},
+			"MutA":         jx.Obj{"type": "object", "properties": jx.Obj{"b": ref("MutB")}},
+			"MutB":         jx.Obj{"type": "object", "properties": jx.Obj{"a": ref("MutA")}},
+			"ArrSelf":      jx.Obj{"type": "array", "items": ref("ArrSelf")},
+			"MapSelf":      jx.Obj{"type": "object", "additionalProperties": ref("MapSelf")},
+			"ArrMapSelf":   jx.Obj{"type": "array", "items": jx.Obj{"type": "object", "additionalProperties": ref("ArrMapSelf")}},
+			"MutArrA":      jx.Obj{"type": "array", "items": ref("MutArrB")},
+			"MutArrB":      jx.Obj{"type": "object", "additionalProperties": ref("MutArrA")},
 			"ArrOfArrSelf": jx.Obj{"type": "array", "items": ref("ArrSelf")},
 			// two containers closing two different cycles through each other
 			"Ping": jx.Obj{"type": jx.Arr{"object", "array"}, "additionalProperties": ref("Ping"), "items": ref("Pong")},
@@ -104,7 +104,7 @@ func wrapAll(children []jx.Obj, cnames []string) (out []jx.Obj, names []string) 
 		add("map:"+n, jx.Obj{"type": "object", "additionalProperties": cl()})
 		add("map-notype:"+n, jx.Obj{"additionalProperties": cl()})
 		add("array:"+n, jx.Obj{"type": "array", "items": cl()})
-		add("tuple[" + n + "]", jx.Obj{"type": "array", "items": jx.Arr{cl()}})
+		add("tuple["+n+"]", jx.Obj{"type": "array", "items": jx.Arr{cl()}})
 		add("tuple[string,"+n+"]", jx.Obj{"type": "array", "items": jx.Arr{jx.Obj{"type": "string"}, cl()}})
 		add("tuple[string]+ai:"+n, jx.Obj{"type": "array", "items": jx.Arr{jx.Obj{"type": "string"}}, "additionalItems": cl()})
 		add("tuple["+n+"]+ai:true", jx.Obj{"type": "array", "items": jx.Arr{cl()}, "additionalItems": true})
